@@ -2384,3 +2384,21 @@ variant_multi('b-base-aenter-connects', ['C08'], [
     (RB, "    async def __aenter__(self) -> 'RSocketBase':\n        return self",
      "    async def __aenter__(self) -> 'RSocketBase':\n        await self.connect()\n        return self")],
     ('C08.k', 'RSocketBase.__aenter__'))
+
+# round 11: C19.f, C15.b current handler, C06.a collector, shares
+variant_multi('b-route-signature-filtered', ['C19'], [
+    (RRT, "        self.signature = signature(method)",
+     "        self.signature = signature(method).replace(parameters=[p for p in signature(method).parameters.values() if p.kind == p.POSITIONAL_OR_KEYWORD])")],
+    ('C19.f', 'RouteInfo.__init__'))
+variant('t-route-signature-through-a-local', ['C19'], RRT,
+        "        self.signature = signature(method)", "        method_signature = signature(method)\n        self.signature = method_signature",
+        kind='twin')
+variant('b-collector-requests-at-on-subscribe', ['C06'], 'rsocket/awaitable/collector_subscriber.py',
+        "        self.subscription = subscription\n", "        self.subscription = subscription\n        self.subscription.request(self._limit_rate)\n",
+        ('C06.a', 'CollectorSubscriber'))
+
+# C03.j reassembly cache entries
+variant('b-reassembly-cache-evicts-by-count', ['C03', 'C01'], 'rsocket/frame_fragment_cache.py',
+        "            self._frames_by_stream_id[frame.stream_id] = self._frame_fragment_builder(frame)\n",
+        "            self._frames_by_stream_id[frame.stream_id] = self._frame_fragment_builder(frame)\n            while len(self._frames_by_stream_id) > 16:\n                self._frames_by_stream_id.pop(next(iter(self._frames_by_stream_id)))\n",
+        ('C03.j', 'FrameFragmentCache.append'))
